@@ -60,9 +60,11 @@ def base_traffic(rng, tree, keys, cr, nonce):
             odd.append(Peer(0, IPv6Address(v), rng.choice([2412, 0, 65535])))
     out.append(("peers_not_ipv4_mapped", fr(PeersMessage(odd), rng)))
     # structurally invalid / rule-violating blocks and transactions
-    for forced in ("missing_output", None, None):
-        # (a block that is valid by itself and spends an output that does not exist makes the application of the block raise
-        # KeyError with a non-string argument — always present)
+    for forced in ("missing_output", "intra_block_spend", "bad_curve_point", None):
+        # (always present: a block that is valid by itself and spends an output that does not exist — its application raises
+        # KeyError with a non-string argument; one that spends an output created in the same block — the fee computation of the
+        # full validation raises KeyError, not a validation error; one that spends an output paying a key that is no curve
+        # point — the signature check raises an assertion-type error)
         klass = forced or rng.choice([c for c in ledger.classes_for("all") if c not in ledger.EXPECT_VALID
                                       and c not in ledger.UNDETERMINED
                                       # invalid only relative to the clock the candidate was built for, not this node's clock
